@@ -211,7 +211,7 @@ pub fn gen_len(rng: &mut Rng, big: bool) -> usize {
 pub fn gen_fields(rng: &mut Rng, max: usize) -> Vec<(Vec<u8>, Vec<u8>)> {
     let n = rng.below(max as u64 + 1) as usize;
     let names: [&[u8]; 8] = [b"X-A", b"x-a", b"Server", b"Set-Cookie", b"ETag", b"X-B", b"Date", b"Vary"];
-    (0..n)
+    let mut fs: Vec<(Vec<u8>, Vec<u8>)> = (0..n)
         .map(|_| {
             let name = rng.pick(&names).to_vec();
             let vl = rng.range(0, 20) as usize;
@@ -221,7 +221,16 @@ pub fn gen_fields(rng: &mut Rng, max: usize) -> Vec<(Vec<u8>, Vec<u8>)> {
             }
             (name, v)
         })
-        .collect()
+        .collect();
+    // one response in three says what its content is (without naming a charset): framing, delivery and the
+    // moment `send` returns do not depend on the media type (seed C19-seed11: the first body bytes of a textual
+    // body without charset label awaited inside `send`)
+    if max > 0 && rng.chance(1, 3) {
+        let types: [&[u8]; 6] = [b" text/html", b" text/plain", b" application/json", b" application/xhtml+xml", b" application/octet-stream", b" text/xml"];
+        let at = rng.below(fs.len() as u64 + 1) as usize;
+        fs.insert(at, (b"Content-Type".to_vec(), rng.pick(&types).to_vec()));
+    }
+    fs
 }
 
 /// The trailer section of a chunked body: usually empty; otherwise 1–5 field lines (up to the 100 the
